@@ -175,12 +175,9 @@ Definition c14_dom (c : pfcfg) : bool := dom_static_nowait_tail c.
 Definition c48_dom_tail (c : pfcfg) : bool :=
   dom_static_nowait_tail c && (user_maxThreads c <? static_n c (pf_decide c) + 1).
 
-(* adjustChunkSizing replaced maxThreads by range.size() - wait (explicit chunk size, small range) which
-   exceeds the caller's limit *)
-Definition c48_dom_override (c : pfcfg) : bool :=
-  is_worker_path c && (user_maxThreads c <? d_maxThreads (pf_decide c)).
-
-Definition c48_dom (c : pfcfg) : bool := c48_dom_tail c || c48_dom_override c.
+(* (the former second domain -- adjustChunkSizing replacing maxThreads by range.size() - wait for explicit chunk
+   sizes on small ranges -- was repaired: the replacement is now std::min(maxThreads, range.size() - wait)) *)
+Definition c48_dom (c : pfcfg) : bool := c48_dom_tail c.
 
 (* ---- antichains ---- *)
 Fixpoint all_unordered (a : call) (l : list call) : bool :=
